@@ -29,6 +29,8 @@ def family_sys(rng, count):
             snd = []
             for _ in range(rng.choice([0, 1, 1, 2])):
                 snd.append((rng.choice([1, 2, 3]), rng.choice([0, 0, 1]), rng.choice([0, 7])))
+            if snd and rng.random() < 0.3:
+                snd.append(snd[-1])         # the same event (name, parameters, delay) twice in a row: two events
             act = gc.desc(incx=0, sends=snd, nots=[1] if rng.random() < 0.2 else [])
             if not any(u['src'] == s and u['ev'] == ev for u in trans):
                 trans.append(gc.mk_trans(s, tg, ev, 0, 'none', 0, act))
